@@ -37,7 +37,10 @@ def c20_case(draw, tier):
                 v2 = g.emit(st_)
         var = v2 or var
         if shape == "one_cell" and g.t(var).visible:
-            n = draw(st.sampled_from(g.t(var).names()))
+            tv = g.t(var)
+            agg_names = [nm for nm, c in tv.visible if c in tv.agg_cols]
+            # (K03, open finding: one column of an ungrouped summarize stays selected)
+            n = draw(st.sampled_from(agg_names or tv.names()))
             var = g.emit({"out": g.new_var(), "verb": "select", "in": var, "cols": [{"c": n}]}) or var
     elif shape == "empty":
         var = g.emit({"out": g.new_var(), "verb": "filter", "in": var, "preds": [["fn", "is_null", [["col", {"c": g.t(var).names()[0]}]], {}]]}) or var
